@@ -159,7 +159,7 @@ def main():
         "coverage": {
             "evaluations": evaluations,
             "distinct_nontrivial": len(nontriv),
-            "rule": "history = one generated workload (dedicated generator X06 maximising provers / gauges / access-map ids / form shuffles per block, plus the generators of C01 C03 C04 C05 C07 C10 C12 C14 C17 C18 in record-only mode) recorded as genesis + headers + signed tx bytes; "
+            "rule": "history = one generated workload (dedicated generator X06 maximising provers / gauges / access-map ids / form shuffles per block, plus the generators of every other property except C11 (its contract family calls the wasm plug-in boundary directly, outside ABCI) and C20 in record-only mode) recorded as genesis + headers + signed tx bytes; "
                     "evaluation = one re-execution in an independent OS process (B: GOMAXPROCS=2, GOGC=1, wall clock shifted by +98 days through a time.Now overlay, serialised CheckTx/Recheck/Query/Simulate calls interleaved with probability 0.4 between consensus calls; thorough adds C: race-detector build) compared step by step with process A on AppHash, tx code/codespace/gas/data and the ordered event lists of BeginBlock/DeliverTx/EndBlock; "
                     "non-trivial = distinct (source, message-type set) histories that paid >=3 provers in one reward block or used >=6 message types",
             "samples": samples or [{"note": "none"}],
